@@ -1480,6 +1480,10 @@ h2_recv_continuation (uint32_t n, uint32_t clen, const off_t cqlen, chunkqueue *
     s[0] = (m >> 16) & 0xFF;
     s[1] = (m >>  8) & 0xFF;
     s[2] = (m      ) & 0xFF;
+    /* merged frame holds the complete header block
+     * (matters if frame is left in cq and parsed again, e.g. when deferred
+     *  by h2_send_refused_stream() waiting for a stream slot) */
+    s[4] |= H2_FLAG_END_HEADERS;
     m += 9;
     /* adjust chunk c->mem */
     if (n < clen) { /*(additional frames after CONTINUATION)*/
